@@ -50,18 +50,26 @@ L1_NBR = ["RModel.BSet.nextValue_some", "RModel.BSet.nextValue_none", "RModel.BS
           "RModel.BSet.nextAbsent_spec", "RModel.BSet.prevAbsent_some", "RModel.BSet.prevAbsent_none"]
 L2_CONT = ["RModel.Impl.toBSet_and2", "RModel.Impl.toBSet_or2", "RModel.Impl.toBSet_xor2", "RModel.Impl.toBSet_andNot2",
            "RModel.Impl.wf_and2", "RModel.Impl.wf_or2", "RModel.Impl.wf_xor2", "RModel.Impl.wf_andNot2", "RModel.Impl.mem_toBSet"]
+L2_REP = ["RModel.Impl.mem_rep", "RModel.Impl.Rep.toBSet_and2", "RModel.Impl.Rep.toBSet_or2", "RModel.Impl.Rep.toBSet_xor2",
+          "RModel.Impl.Rep.toBSet_andNot2", "RModel.Impl.Rep.wf_and2", "RModel.Impl.Rep.wf_or2", "RModel.Impl.Rep.wf_xor2",
+          "RModel.Impl.Rep.wf_andNot2"]
+L2_QUERY = ["RModel.Impl.containsQ_spec", "RModel.Impl.rankQ_spec", "RModel.Impl.selectQ_spec", "RModel.Impl.minimumQ_spec",
+            "RModel.Impl.maximumQ_spec", "RModel.Impl.cardInRangeQ_spec", "RModel.Impl.getCardinalityQ_spec"]
+L2_NBRQ = ["RModel.Impl.nextValueQ_spec", "RModel.Impl.previousValueQ_spec", "RModel.Impl.nextAbsentValueQ_spec",
+           "RModel.Impl.previousAbsentValueQ_spec"]
 L1_XFORM = ["RModel.BSet.mem_shift", "RModel.BSet.canon_shift", "RModel.BSet.mem_flipRange", "RModel.BSet.canon_xor"]
 
 PROPS = {
-    "C01": {"suites": [("alg", 1.0), ("kern", 0.3), ("kernspecial", 1.0), ("kernthresh", 0.5), ("popcnt", 1.0), ("kernl2", 0.5)],
-            "theorems": L1_ALGEBRA + F_THRESH + L2_CONT,
-            "modules": DEFAULT_MODULES + [FACTS, "RProofs.ContOps"],
+    "C01": {"suites": [("alg", 1.0), ("kern", 0.3), ("kernspecial", 1.0), ("kernthresh", 0.5), ("popcnt", 1.0), ("kernl2", 0.5), ("l2rep", 0.5)],
+            "theorems": L1_ALGEBRA + F_THRESH + L2_CONT + L2_REP,
+            "modules": DEFAULT_MODULES + [FACTS, "RProofs.ContOps", "RProofs.RepOps"],
             "owns": {"and", "or", "xor", "andnot", "iand", "ior", "ixor", "iandnot", "andcard", "orcard", "isect", "eq", "dig",
-                     "kern", "popcnt"}},
+                     "kern", "popcnt", "l2op"}},
     "C02": {"suites": [("hist", 1.0)], "theorems": L1_MUT + L1_ALGEBRA[:3] + F_THRESH, "modules": DEFAULT_MODULES + [FACTS],
             "owns": {"new", "add", "cadd", "addint", "addmany", "rem", "crem", "addr", "remr", "flip", "clear", "opt", "clone",
                      "cowclone", "detach", "setcow", "dig", "card", "empty", "of"}},
-    "C03": {"suites": [("query", 1.0), ("kernq", 0.3), ("eqpairs", 0.5)], "theorems": L1_QUERY,
+    "C03": {"suites": [("query", 1.0), ("kernq", 0.3), ("eqpairs", 0.5), ("kernq2", 0.3)], "theorems": L1_QUERY + L2_QUERY,
+            "modules": DEFAULT_MODULES + ["RProofs.ContQuery", "RProofs.ContQueryNumRuns"],
             "owns": {"card", "empty", "has", "min", "max", "rank", "sel", "cir", "iwi", "eq", "toarr", "toexarr", "chkeq", "dig", "kern", "mkrepr"}},
     "C04": {"suites": [("iter", 1.0), ("iterun", 1.0)],
             "theorems": L1_NBR[:4] + ["RModel.BSet.rankLt_eq_count", "RModel.BSet.card_eq_rankLt", "RModel.BSet.select_spec",
@@ -92,11 +100,11 @@ PROPS = {
             "theorems": ["RModel.Impl.safe_unflagged_not_foreign", "RModel.Impl.safe_addZeroCopy", "RModel.Impl.gate_not_foreign",
                          "RModel.Impl.detach_no_foreign'", "RModel.Impl.safe_reachable", "RModel.Impl.hdrLocal_run"],
             "owns": None},
-    "C09": {"suites": [("hist", 1.0), ("alg", 0.7), ("xform", 0.7), ("ser", 0.5), ("kernwf", 1.0), ("kernthresh", 1.0), ("thresh", 0.5), ("agg", 0.5), ("kernl2", 0.5)],
-            "theorems": ["RModel.Impl.wf_implies_validate", "RModel.Impl.validate_implies_wf_of_decoded", "RModel.BSet.canon_ext"] + F_THRESH + L2_CONT[4:8],
-            "modules": DEFAULT_MODULES + [FACTS, "RProofs.Properties.C09", "RProofs.ContOps"],
+    "C09": {"suites": [("hist", 1.0), ("alg", 0.7), ("xform", 0.7), ("ser", 0.5), ("kernwf", 1.0), ("kernthresh", 1.0), ("thresh", 0.5), ("agg", 0.5), ("kernl2", 0.5), ("l2rep", 0.3)],
+            "theorems": ["RModel.Impl.wf_implies_validate", "RModel.Impl.validate_implies_wf_of_decoded", "RModel.BSet.canon_ext"] + F_THRESH + L2_CONT[4:8] + L2_REP[5:],
+            "modules": DEFAULT_MODULES + [FACTS, "RProofs.Properties.C09", "RProofs.ContOps", "RProofs.RepOps"],
             # a library-written stream read back must validate: `rd` lines whose Go side reports an invalid bitmap are C09's
-            "owns_fn": lambda op, mm, suite: op in ("wf", "kernwf") or (op == "rd" and "invalid:" in mm.get("got", "")),
+            "owns_fn": lambda op, mm, suite: op in ("wf", "kernwf", "l2op") or (op == "rd" and "invalid:" in mm.get("got", "")),
             "owns": {"wf", "kernwf"}},
     "C10": {"suites": [("fuzzdec", 1.0), ("fuzzfrozen", 0.5)], "corpus": ["corpus/C10/frozen-bitmap4096.txt"],
             "theorems": ["RModel.Impl.decode_no_panic", "RModel.Impl.prefix_rejected", "RModel.Impl.decode_shape",
@@ -117,7 +125,8 @@ PROPS = {
     "C14": {"suites": [("hist", 1.0), ("alg", 0.7), ("xform", 0.5), ("thresh", 0.5), ("sizeb", 1.0), ("agg", 0.5)],
             "theorems": ["RModel.Impl.readme_bound", "RModel.Impl.bound_function", "RModel.BSet.canon_ext"] + F_SERIAL,
             "modules": DEFAULT_MODULES + [FACTS, "RProofs.Properties.C14"], "owns": {"size"}},
-    "C15": {"suites": [("nbr", 1.0), ("kernq", 0.3)], "theorems": L1_NBR, "owns": {"nv", "pv", "nav", "pav", "kern"}},
+    "C15": {"suites": [("nbr", 1.0), ("kernq", 0.3), ("kernq2", 0.3)], "theorems": L1_NBR + L2_NBRQ,
+            "modules": DEFAULT_MODULES + ["RProofs.ContQuery"], "owns": {"nv", "pv", "nav", "pav", "kern"}},
     "C16": {"suites": [("xform", 1.0), ("dense", 1.0), ("zc_dense", 0.5)], "theorems": L1_XFORM,
             "owns": {"off", "off32", "sflip", "eq", "dense", "fromdense", "frombitset", "densechk", "dig",
                      "zdense", "zfromdense", "safe", "digall", "zdetach", "zsame"}},
